@@ -9,6 +9,7 @@ import PS.Model.Solver
 import PS.Model.Solution
 import PS.Model.Export
 import PS.Spec.Fragment
+import PS.Spec.FragmentG
 open PS
 
 structure Session where
@@ -61,6 +62,10 @@ def handle (ss : Session) (line : String) : Session × List String :=
   | some sx =>
     match sx with
     | .list [.atom "reset"] => ({ saved := ss.saved }, ["ok"])
+    | .list [.atom "fragment-groups"] =>
+        -- top-level task groups: the hypotheses of `C05_feasible_iff_groups` / `C07_groups_attainable`
+        -- (`fragmentGroupsB_sound`), and the number of groups the theorem then covers
+        (ss, ["(n 1)", (if ss.st.fragmentGroupsB then "true " else "false ") ++ toString ss.st.groups.length])
     | .list [.atom "fragment-multi"] =>
         -- several objectives: the hypotheses of `C05_feasible_iff_multi` / `C07_weighted_attainable` (`fragmentMultiB_sound`)
         (ss, ["(n 1)", if ss.st.fragmentMultiB then "true" else "false"])
